@@ -35,6 +35,8 @@ pub mod evaluate_const_vars {
     /// This evaluates and caches the value of all `const` vars that have been defined on the global context.
     /// It is required for const simplification, which only looks at the cache.
     pub fn run(ctx: &mut CompilerContext) -> Result<Proof, ErrorReported> {
+    #[cfg(truth_verif)]
+    crate::verif_hooks::pass("evaluate_const_vars");
         ctx.consts.evaluate_all_deferred(&ctx.defs, &ctx.resolutions, &ctx.emitter)?;
 
         Ok(Proof { _priv: () })
